@@ -1194,7 +1194,7 @@ func (s *UtxoStore) GetBindingHistoryDetail(tx mwdb.ReadTransaction, addrMgr *ke
 
 func (s *UtxoStore) ExistCreditFromTx(rtx mwdb.ReadTransaction, hash *wire.Hash) bool {
 	nsCredits := rtx.FetchBucket(s.bucketMeta.nsCredits)
-	iter := nsCredits.NewIterator(mwdb.BytesPrefix(hash[:]))
-	defer iter.Release()
-	return iter.Next()
+	// GetByPrefix, unlike an iterator, also reflects the pending writes of an open transaction
+	entries, err := nsCredits.GetByPrefix(hash[:])
+	return err == nil && len(entries) > 0
 }
